@@ -387,3 +387,18 @@ Qed.
 (* relative to the merged tree nothing but whitespace changes *)
 Theorem model_frame n : skel (reduce_model n) = skel (merge_tree n).
 Proof. rewrite model_is_spec. apply reduce_frame. Qed.
+
+(* the xml:space rule of the model is TagNode._get_normalize_space_directive as regenerated from the source
+   ("default"/"preserve" as strings there, a boolean here) *)
+Definition dir_str (b : bool) : str := if b then s_preserve else s_default.
+Theorem directive_is_generated attrs inherited :
+  get_normalize_space_directive attrs (dir_str inherited) = dir_str (directive attrs inherited).
+Proof.
+  unfold get_normalize_space_directive, directive, dir_str, s_space, s_default, s_preserve.
+  destruct (get_attr xml_ns _ attrs) as [v|]; [|reflexivity].
+  destruct (str_eqb v [112; 114; 101; 115; 101; 114; 118; 101]%N) eqn:Ep.
+  - apply str_eqb_eq in Ep. subst v. reflexivity.
+  - destruct (str_eqb v [100; 101; 102; 97; 117; 108; 116]%N) eqn:Ed.
+    + apply str_eqb_eq in Ed. subst v. reflexivity.
+    + cbn [orb]. reflexivity.
+Qed.
